@@ -23,7 +23,14 @@ type vfState struct {
 
 var vfS = &vfState{model: map[string]uint64{}}
 
+// vfCleanup: undo what the previous run left behind (temporary directories)
+var vfCleanup []func()
+
 func vf_LoadModel(m map[string]uint64) {
+	for _, f := range vfCleanup {
+		f()
+	}
+	vfCleanup = nil
 	vfS = &vfState{model: m}
 }
 
@@ -150,6 +157,42 @@ func vf_Cover(label string)        {}
 func vf_Symbolic() bool            { return false }
 func vf_Tier() int                 { return int(vfS.model["__tier"]) }
 func vf_Printed() int              { return 0 }
+
+// vf_CaptureStdout: the text f writes to standard output
+func vf_CaptureStdout(f func()) string {
+	old := os.Stdout
+	r, w, err := os.Pipe()
+	if err != nil {
+		panic(err)
+	}
+	os.Stdout = w
+	done := make(chan string)
+	go func() {
+		var sb strings.Builder
+		buf := make([]byte, 4096)
+		for {
+			n, err := r.Read(buf)
+			sb.Write(buf[:n])
+			if err != nil {
+				break
+			}
+		}
+		done <- sb.String()
+	}()
+	func() {
+		defer func() {
+			os.Stdout = old
+			w.Close()
+		}()
+		f()
+	}()
+	out := <-done
+	r.Close()
+	return out
+}
+
+// vf_Schedule: natively a no-op (the Go runtime randomises map iteration by itself)
+func vf_Schedule(on bool) {}
 func vf_NoPanic(f func(), label string) {
 	defer func() {
 		if r := recover(); r != nil {
